@@ -147,8 +147,90 @@ def _fault_runs(ctx, binary, ppath, plans, reps, only, tag, test, nexp, cov):
                      "fault_rule": "every fault plan of ExchangeFaults.tla (exchange 1 = the version negotiation inside Dial, or the first call; write failing at the client's socket with broken pipe / closed / reset / short write; server closing or resetting before replying, after half of the response, right after the complete response; once or on every connection) x %d repetitions (the client reads whole messages or three bytes at a time), on an unmodified client in one synctest bubble: no hang, no panic, own response or error, at most 4 transmissions and 4 dials per call, errors only in exchanges a failure hit, recovery in the next exchange, calls fail after Close, no goroutine left; every run validated by TLC against TraceExchangeFaults.tla" % reps})
 
 
+def cluster(ctx):
+    """C11 for the cluster client (kmipclient.DialCluster, its own dialer over crypto/tls): the plans of ClusterDial.tla (servers going
+    down and coming back, the retry timeout passing or not, calls after the connection was lost) replayed on the real client over
+    loopback TCP, every plan validated by TLC against TraceClusterDial.tla."""
+    import json, os, re
+    import vlib
+    ctx.tlc("ClusterDial", "ClusterDial_mc.cfg", workers=4)
+    g = ctx.tlc("MCClusterDial", "ClusterDial_gen.cfg", workers=1, count=False)
+    plans = g.printed("CASE")
+    if len(plans) < 200:
+        raise vlib.Inconclusive("only %d cluster plans generated" % len(plans))
+    plans.sort(key=lambda p: json.dumps(p))
+    if ctx.quick:
+        plans = [p for k, p in enumerate(plans) if k % 5 == ctx.seed % 5]
+    binary = ctx.build_driver("client")
+    total = judged = 0
+    for tag, sel, env in (("timeout-set", plans, {"VERIF_CLUSTER_RETRY_MS": 1000}),
+                          # a client built without WithRetryTimeout (the library's default applies): plans in which no timeout passes
+                          ("defaults", [p for p in plans if all(st["op"] != "tick" for st in p["plan"])][:40], {"VERIF_CLUSTER_RETRY_MS": 5000, "VERIF_CLUSTER_DEFAULTS": 1})):
+        ppath = os.path.join(ctx.work, "cluster_plans_%s.ndjson" % tag)
+        tpath = os.path.join(ctx.work, "cluster_trace_%s.ndjson" % tag)
+        vlib.write_ndjson(ppath, sel)
+        rc, out = ctx.run_driver(binary, test_run="^TestCluster$", env=dict(env, VERIF_CLUSTER_CASES=ppath, VERIF_TRACE=tpath), timeout=1500)
+        if rc != 0 or not os.path.exists(tpath):
+            raise vlib.Inconclusive("cluster driver failed rc=%s\n%s" % (rc, out[-3000:]))
+        log = vlib.read_ndjson(tpath)
+        byplan = {}
+        for e in log:
+            byplan.setdefault(e["plan"], []).append(e)
+        if len(byplan) != len(sel):
+            raise vlib.Inconclusive("cluster driver replayed %d of %d plans" % (len(byplan), len(sel)))
+        keep = []
+        for k in sorted(byplan):
+            evs = byplan[k]
+            total += 1
+            if any(e["ev"] == "problem" for e in evs):
+                raise vlib.Inconclusive("cluster driver: %s" % [e for e in evs if e["ev"] == "problem"])
+            # the anomalies C11 names, judged from the events alone
+            up, flagged = {1, 2}, False
+            for e in evs:
+                if e["ev"] == "flip":
+                    up ^= {e["s"]}
+                if e["ev"] not in ("build", "call"):
+                    continue
+                what = None
+                if e["result"] == "panic":
+                    what = ("panic", "the %s panicked: %s" % (e["ev"], e["panic"][:200]))
+                elif e["result"] == "hang":
+                    what = ("hang", "the %s did not return within 20 s" % e["ev"])
+                elif e["result"] == "err" and any(a in up for a in e["attempts"]) and not e.get("unreliable"):
+                    what = ("error-although-a-server-answered", "the %s failed although server %s, which it contacted, was up" % (e["ev"], [a for a in e["attempts"] if a in up]))
+                elif e["result"] == "ok" and e["at"] not in up:
+                    what = ("answer-from-a-server-that-is-down", "answered by server %s, up = %s" % (e["at"], sorted(up)))
+                if what:
+                    flagged = True
+                    ctx.violation("cluster:%s:%s:%s" % (tag, e["ev"], what[0]), "cluster client (%s), plan %s: %s; events %s" % (tag, json.dumps(sel[k]["plan"]), what[1], json.dumps(evs)[:1500]),
+                                  {"plan": sel[k], "events": evs})
+                    break
+            if flagged or any(e.get("unreliable") for e in evs):
+                continue
+            judged += 1
+            keep += [{kk: v for kk, v in e.items() if kk in ("ev", "s", "attempts", "result", "at")} for e in evs]
+        if not keep:
+            continue
+        vpath = os.path.join(ctx.work, "cluster_validate_%s.ndjson" % tag)
+        vlib.write_ndjson(vpath, keep)
+        t = ctx.tlc("TraceClusterDial", "ClusterDial_trace.cfg", workers=1, env={"TRACE_FILE": vpath}, must_pass=False, count=False, label="cluster-" + tag)
+        if t.ok:
+            ctx.traces_validated += len([e for e in keep if e["ev"] == "reset"])
+        else:
+            m = re.search(r"REJECTED_AT\D+(\d+)", t.out)
+            if not m:
+                raise vlib.Inconclusive("cluster trace validation failed:\n" + t.out[-3000:])
+            pos = int(m.group(1))
+            start = max(k for k in range(pos) if keep[k]["ev"] == "reset")
+            raise vlib.Inconclusive("model drift: TLC rejects a cluster run (%s) without a property-level anomaly at event %s; run so far: %s" % (tag, json.dumps(keep[pos - 1]), json.dumps(keep[start:pos])[:1500]))
+    if judged < total * 0.8:
+        raise vlib.Inconclusive("only %d of %d cluster plans ran within the timing the model assumes" % (judged, total))
+    ctx.extra_cov = dict(getattr(ctx, "extra_cov", {}), cluster_plans_replayed=total, cluster_plans_validated_by_tlc=judged)
+
+
 def run(ctx):
     exchange_faults(ctx)
+    cluster(ctx)
     if not ctx.quick:
         ctx.tlc("ClientConn", "Client_c11x.cfg", workers=14, timeout=2400)
     c10.run(ctx, pid="C11", traps=TRAPS, want=WANT, cfgs=("Client_c11q.cfg", "Client_c11y.cfg"), with_close=1, extra=extra)
